@@ -156,6 +156,32 @@ def check(ctx) -> Result:
         res.frozen(False, "K-swap-conjugation", "_add_two_qubit_gate", two.site(), two.qualname, "", "swap insertion around the gate not recognised", construct="swaps")
     else:
         res.add(verdict, "K-swap-conjugation", "_add_two_qubit_gate", two.site(), two.qualname, "the same swaps are applied before and after the gate", f"the swaps applied before and after a non-adjacent two-qubit gate differ ({why}): the qubits are not returned to their places", construct=why)
+    # placement: on every path the gate circuit is added at the first mode of the *lower* of the two qubits
+    from ..paths import Walker as _PW, norm_text as _nt
+    class _AddWalker(_PW):
+        def __init__(self):
+            super().__init__("gate")
+            self.adds = []
+        def stmt(self, st, p_):
+            if isinstance(st, ast.Expr) and isinstance(st.value, ast.Call) and src(st.value.func) == "self.circuit.add" and len(st.value.args) >= 2:
+                self.adds.append((st, self.text(st.value.args[0], p_), self.text(st.value.args[1], p_), dict(p_.cond)))
+            return super().stmt(st, p_)
+    aw = _AddWalker()
+    aw.run(two.node.body)
+    import re as _re
+    placed = [(st_, c_, m_, cond_) for st_, c_, m_, cond_ in aw.adds if "swap" not in c_.lower()]
+    if not placed:
+        res.frozen(False, "K-target-and-placement", "_add_two_qubit_gate:placement", two.site(), two.qualname, "", "insertion of the two-qubit gate circuit not recognised", construct="")
+    for st_, c_, m_, cond_ in placed:
+        mm = _re.fullmatch(r"self\.modes\[min\(\[?([^,\]]+),([^,\]]+)\]?\)\]\[0\]", m_)
+        direct = _re.fullmatch(r"self\.modes\[(\??q[01])\]\[0\]", m_)
+        if mm and {mm.group(1).lstrip("?"), mm.group(2).lstrip("?")} == {"q0", "q1"}:
+            res.ok("K-target-and-placement", f"_add_two_qubit_gate:placement@{st_.lineno}", two.site(st_), two.qualname, "gate placed on the first mode of the lower qubit")
+        elif direct:
+            res.bad("K-target-and-placement", f"_add_two_qubit_gate:placement@{st_.lineno}", two.site(st_), two.qualname,
+                    f"on a path ({', '.join(k for k, v in cond_.items() if v)[:80]}) the gate circuit is placed at `{m_}`, the first-listed qubit, not the lower of the two: a gate listed high-qubit-first lands one qubit too high", construct=m_)
+        else:
+            res.frozen(False, "K-target-and-placement", f"_add_two_qubit_gate:placement@{st_.lineno}", two.site(st_), two.qualname, "", f"placement `{m_}` not recognised", construct=m_)
     t = src(two.node).replace(" ", "")
     res.frozen("target=q1-min([q0,q1])" in t and "add_circ=mapper['cx'](target)" in t and "add_mode=self.modes[min([q0,q1])][0]" in t and "q0,q1,to_swap=convert_two_qubits_to_adjacent(q0,q1)" in t.replace("(q0,q1,to_swap)", "q0,q1,to_swap"),
             "K-target-and-placement", "_add_two_qubit_gate", two.site(), two.qualname, "cx target = q1 - min(q0, q1); gate placed on the lower qubit's first mode after making the qubits adjacent", "target / placement computation of two-qubit gates changed", construct="two-qubit placement")
